@@ -1084,6 +1084,11 @@ def elementwise(fn):
 def np_abs(I, x):
     if isinstance(x, (int, float)):
         return abs(x)
+    if isinstance(x, SArr) and x.elem == 'real':
+        # element-wise on a sequence of symbolic length: the array k -> |a[k]|
+        k = z3.Int(_fresh_name(I, 'k'))
+        e = z3.Select(x.a, k)
+        return SArr(z3.Lambda([k], z3.If(e >= 0, e, -e)), x.n, 'real', 'ndarray')
     x = as_arith(lift(x))
     t = z3.If(x.t >= 0, x.t, -x.t)
     if x.has_inf:
@@ -1778,7 +1783,25 @@ def b_isinstance(I, x, cls):
     return one(cls)
 
 
+def _seq_extreme(I, a, which, kw):
+    """python max / min of a sequence of symbolic length: the default (or ValueError) when it is empty, otherwise a value that occurs in it and bounds all elements"""
+    assumed(I, 'seqops')
+    if not I.decide(a.n > 0):
+        if 'default' in kw:
+            return kw['default']
+        raise PyRaise('ValueError', f'{which}() arg is an empty sequence')
+    m = I.fresh(which, 'real' if a.elem == 'real' else 'int')
+    i = I.fresh(f'{which}_at', 'int')
+    k = z3.Int(_fresh_name(I, 'k'))
+    sel = lambda j: z3.Select(a.a, j)     # noqa: E731
+    I.assume(z3.And(i >= 0, i < a.n, sel(i) == m))
+    I.assume(z3.ForAll([k], z3.Implies(z3.And(k >= 0, k < a.n), sel(k) <= m if which == 'max' else sel(k) >= m)))
+    return SV(m)
+
+
 def b_max(I, *args, **kw):
+    if len(args) == 1 and isinstance(args[0], SArr):
+        return _seq_extreme(I, args[0], 'max', kw)
     if len(args) == 1:
         args = iterate(I, args[0])
     r = args[0]
@@ -1795,6 +1818,8 @@ def b_max(I, *args, **kw):
 
 
 def b_min(I, *args, **kw):
+    if len(args) == 1 and isinstance(args[0], SArr):
+        return _seq_extreme(I, args[0], 'min', kw)
     if len(args) == 1:
         args = iterate(I, args[0])
     r = args[0]
